@@ -3,6 +3,9 @@ import Casm.Proofs.AssembleLemmas
 import Casm.Proofs.BudgetMono
 import Casm.Proofs.KindInv
 import Casm.Proofs.BudgetPinned
+import Casm.Proofs.BudgetOne
+import Casm.Proofs.FrontUniq
+import Casm.Proofs.FrontInv
 /-!
 # C09 — the iteration budget decides whether a program assembles, never to what
 
@@ -75,6 +78,17 @@ theorem budget_monotone_after_front_end (opts : Opts) (fs : SrcFiles) (roots : L
     ∃ k' rep', resolveIterativelyN st nodes m defs0 = .ok (k', d, rep') :=
   budget_monotone st nodes (frontEnd_noClash opts fs roots st nodes defs0 hf) n m hn hnm defs0 k d rep h
 
+/-- **C09 (monotonicity) from every budget of at least one pass**, for every program the front end accepts.
+    With a budget of one pass the single pass is first, strict and stable; its result is a fixed point of
+    the later strict pass (`CornerLast`), the guessing first pass of a larger budget computes the same state
+    (`ModeMonoFirst`), and the iteration stays there. -/
+theorem budget_monotone_from_every_budget (opts : Opts) (fs : SrcFiles) (roots : List (List Char)) (st : Static) (nodes : List AstNode)
+    (defs0 : Defs) (hf : frontEnd opts fs roots = .ok (st, nodes, defs0)) (n m : Nat) (hn : 1 ≤ n) (hnm : n ≤ m)
+    (k : Nat) (d : Defs) (rep : List String) (h : resolveIterativelyN st nodes n defs0 = .ok (k, d, rep)) :
+    ∃ k' rep', resolveIterativelyN st nodes m defs0 = .ok (k', d, rep') :=
+  budget_monotone_any st nodes (frontEnd_noClash opts fs roots st nodes defs0 hf) (frontEnd_uniq opts fs roots st nodes defs0 hf)
+    defs0 (frontEnd_nodesOK opts fs roots st nodes defs0 hf) n m hn hnm k d rep h
+
 /-- **the messages of a successful iteration are those of its confirming pass** (budget at least two):
     passes that are not the last report nothing -/
 theorem messages_are_the_confirming_pass's (st : Static) (nodes : List AstNode) (max : Nat) (hmax : 2 ≤ max) (hwf : NoClash nodes)
@@ -83,11 +97,11 @@ theorem messages_are_the_confirming_pass's (st : Static) (nodes : List AstNode) 
   resolveIterativelyN_rep st nodes max hmax hwf d0 k d rep h
 
 /-- **C09, end to end, with the budget of `asm`-block loops pinned**: a program that assembles under a
-    budget of at least two assembles under every larger budget to the same bits, spans and symbols.
+    budget of at least one pass assembles under every larger budget to the same bits, spans and symbols.
     The hypothesis `innerIter = some k` is exactly what the code lacks (finding F38: `eval_asm` runs its
     own loop under `max_iterations`); the model with `innerIter = none` reproduces the code. -/
 theorem budget_monotone_end_to_end_with_pinned_inner_budget (opts : Opts) (k : Nat) (hk : opts.innerIter = some k)
-    (fs : SrcFiles) (roots : List (List Char)) (n m : Nat) (hn : 2 ≤ n) (hnm : n ≤ m) (out : AsmOk)
+    (fs : SrcFiles) (roots : List (List Char)) (n m : Nat) (hn : 1 ≤ n) (hnm : n ≤ m) (out : AsmOk)
     (h : assemble (opts.withMax n) fs roots = .ok out) :
     ∃ out', assemble (opts.withMax m) fs roots = .ok out' ∧ out'.core = out.core :=
   assemble_budget_monotone_pinned opts k hk fs roots n m hn hnm out h
